@@ -9,4 +9,4 @@ trap 'rm -rf "$d"' EXIT
 rsync -a --exclude .git /repo/ "$d/"
 (cd "$d" && (git apply --whitespace=nowarn "$1" 2>/dev/null || patch -p1 -s < "$1")) || { echo "APPLY-FAILED $1"; exit 2; }
 (cd "$d" && go build ./...) || { echo "BUILD-FAILED $1"; exit 2; }
-ls claims/*.json | sed 's|claims/||; s|.json||' | xargs -P 5 -I{} sh -c "bin/kv check --property {} --repo $d --verif /verif --no-evidence --no-standins 2>&1 | grep '^VIOLATION' | sed 's/replay=[^ ]* //'" | sort | uniq
+ls claims/*.json | sed 's|claims/||; s|.json||' | xargs -P 3 -I{} sh -c "bin/kv check --property {} --repo $d --verif /verif --no-evidence --no-standins 2>&1 | grep '^VIOLATION' | sed 's/replay=[^ ]* //'" | sort | uniq
